@@ -123,6 +123,41 @@ def check_sector(tier):
     return 1 if rejects else 0
 
 
+def expiry_cfg(mut="none", keys=2, maxts=2, maxtime=6, jitter=2):
+    return ('SPECIFICATION Spec\nCONSTANTS\n Keys = {%s}\n Insts = {"i1","i2"}\n MaxTs = %d\n MaxTime = %d\n MinTs = 1\n MinValidity = 2\n MaxJitter = %d\n Mut = "%s"\n'
+            'INVARIANTS Sound Fresh Agree\nPROPERTIES Monotone\nCHECK_DEADLOCK FALSE\n') % (",".join('"k%d"' % i for i in range(1, keys + 1)), maxts, maxtime, jitter, mut)
+
+
+def check_expiry(tier):
+    t0 = time.time()
+    sd = vlib.seed()
+    quick = tier == "quick"
+    binary = vlib.go_build_test("comp")
+    work = vlib.scratch("expiry")
+    r = vlib.run_tlc("ActionExpiry", expiry_cfg() if quick else expiry_cfg(jitter=3), timeout=3400)
+    vlib.require_model_ok(r, "ActionExpiry")
+    killed = {}
+    for mut in ["jitter_from_now", "jitter_per_instance", "expires_at_deadline", "no_minimum", "untimed_hidden"]:
+        rm = vlib.run_tlc("ActionExpiry", expiry_cfg(mut, keys=1, jitter=3), timeout=900)
+        if not rm.violated:
+            raise Broken("ActionExpiry mutant %s not killed" % mut)
+        killed[mut] = rm.violated
+    rc, out = vlib.run_harness(binary, "TestExpiry", {"COMP_OUT": work, "VERIF_SEED": sd, "COMP_RUNS": 400 if quick else 20000}, timeout=3000)
+    if rc != 0:
+        raise Broken("expiry harness failed:\n" + out[-3000:])
+    n_events, rejects, vstates = validate_obs("ExpiryContractTrace", os.path.join(work, "expiry.ndjson"))
+    for i, rj in enumerate(rejects):
+        path = vlib.save_replay("extra_expiry", "s%d_%d" % (sd, i), {"observation.json": rj["event"]})
+        print("VIOLATION property=EXTRA-expiry replay=%s" % path)
+        log("  rejected observation: %s" % json.dumps(rj["event"])[:700])
+    cov = {"states": r.distinct, "transitions": r.generated, "traces_validated_against_impl": n_events, "mutants_killed": killed,
+           "trace_validator_states": vstates, "samples": []}
+    vlib.write_evidence("extra_expiry", tier, "model_checking", cov, time.time() - t0, len(rejects),
+                        ["not one of the listed properties: additional coverage of the specification (actionResultExpiringBlobAccess)",
+                         "whole-second configurations and clock values; maximum_validity_jitter >= 1 s (a configured jitter of zero makes the real decorator divide by zero on the first timestamped result; recorded in DESIGN.md 10.8, outside the listed properties)"])
+    return 1 if rejects else 0
+
+
 def check(name, tier):
     if name == "sector":
         return check_sector(tier)
@@ -130,4 +165,6 @@ def check(name, tier):
         return check_readcanary(tier)
     if name == "eviction":
         return check_eviction(tier)
+    if name == "expiry":
+        return check_expiry(tier)
     raise Broken("unknown extra check " + name)
